@@ -22,6 +22,7 @@ var ErrClosed = errors.New("sctpmem: use of closed association")
 type chunk struct {
 	stream uint16
 	data   []byte
+	err    error // a one-off read error instead of data
 }
 
 // WriteRec is one SCTPWrite call.
@@ -74,7 +75,16 @@ func (a *Assoc) Feed(stream uint16, data []byte) {
 		return
 	}
 	a.mu.Lock()
-	a.in = append(a.in, chunk{stream, append([]byte(nil), data...)})
+	a.in = append(a.in, chunk{stream: stream, data: append([]byte(nil), data...)})
+	a.mu.Unlock()
+	a.cond.Broadcast()
+}
+
+// FeedOnceErr queues an error that one SCTPRead returns, after the chunks queued before it
+// and before those queued after it (an interrupted system call: the association is fine).
+func (a *Assoc) FeedOnceErr(err error) {
+	a.mu.Lock()
+	a.in = append(a.in, chunk{err: err})
 	a.mu.Unlock()
 	a.cond.Broadcast()
 }
@@ -97,6 +107,11 @@ func (a *Assoc) SCTPRead(b []byte) (int, *sctp.SndRcvInfo, error) {
 	}
 	if a.closed {
 		return 0, nil, ErrClosed
+	}
+	if len(a.in) > 0 && a.in[0].err != nil {
+		err := a.in[0].err
+		a.in = a.in[1:]
+		return 0, nil, err
 	}
 	if len(a.in) > 0 {
 		c := &a.in[0]
